@@ -90,6 +90,7 @@ def cases(tier, seed):
                   'frompmask', 'qmarkers', 'transpose', 'validate'):
         yield {'kind': 'stage', 'stage': stage, 'seed': seed}
     yield {'kind': 'concurrent', 'seed': seed, 'tier': tier}
+    yield {'kind': 'trackers', 'seed': seed}
     for shared in ('tmp_dir', 'result_dir'):
         for same_input in (False, True):
             yield {'kind': 'fs-interleave', 'shared': shared,
@@ -462,6 +463,8 @@ def evaluate(case, scratch):
         return evaluate_stage(case, scratch)
     if case['kind'] == 'concurrent':
         return evaluate_concurrent(case, scratch)
+    if case['kind'] == 'trackers':
+        return evaluate_trackers(case, scratch)
     seed = case['seed']
     # clean-history baselines
     baseline = {}
@@ -832,6 +835,107 @@ def evaluate_concurrent(case, scratch):
             'transitions': n, 'traces': n,
             'sample': {'kind': 'concurrent runs',
                        'scheduling_points_of_A': n_points}}
+
+
+def evaluate_trackers(case, scratch):
+    """(e) two FileTracker life cycles on ONE scratch directory (the stage
+    that builds the reference statistics and the mapping stage of one
+    pipeline, or two runs): every interleaving of
+    [new, add input, add output, write staged output, finalise] x 2;
+    after every step each live tracker's staged files exist with their own
+    content; at the end the scratch directory is empty, each output holds
+    its own content and the inputs are untouched."""
+    import gc
+    import itertools
+    from cell_type_mapper.file_tracker.file_tracker import FileTracker
+    OPS = ['new', 'add_in', 'add_out', 'write', 'close']
+    violations = []
+    keys = []
+    traces = transitions = 0
+    outcomes = set()
+    for same_name in (True, False):
+        for slots in itertools.combinations(range(10), 5):
+            order = ['B'] * 10
+            for i in slots:
+                order[i] = 'A'
+            base = scratch.new_dir('ft')
+            scr = base / 'scratch'
+            scr.mkdir()
+            env = {}
+            for who in 'AB':
+                d = base / f'data_{who}'
+                d.mkdir()
+                name = 'query.h5ad' if same_name else f'query_{who}.h5ad'
+                (d / name).write_text(f'input of {who}')
+                env[who] = {'in': d / name, 'out': d / 'result.json',
+                            'ft': None, 'step': 0, 'staged': {}}
+            desc = f"same_name={same_name} schedule={''.join(order)}"
+            bad = None
+            for who in order:
+                e = env[who]
+                op = OPS[e['step']]
+                e['step'] += 1
+                transitions += 1
+                try:
+                    if op == 'new':
+                        e['ft'] = FileTracker(tmp_dir=scr)
+                    elif op == 'add_in':
+                        e['ft'].add_file(e['in'], input_only=True)
+                        e['staged'][e['ft'].real_location(e['in'])] = \
+                            f'input of {who}'
+                    elif op == 'add_out':
+                        e['ft'].add_file(e['out'], input_only=False)
+                    elif op == 'write':
+                        loc = e['ft'].real_location(e['out'])
+                        loc.write_text(f'output of {who}')
+                        e['staged'][loc] = f'output of {who}'
+                    else:
+                        ft = e['ft']
+                        e['ft'] = None
+                        e['staged'] = {}
+                        ft.__del__()
+                        ft._to_write_out = []
+                        ft.tmp_dir = None
+                        del ft
+                        gc.collect()
+                except Exception as ex:
+                    bad = f'{desc}: {who}.{op} raised {type(ex).__name__}: {ex}'
+                    break
+                for w2 in 'AB':
+                    for loc, content in env[w2]['staged'].items():
+                        if not loc.is_file() or loc.read_text() != content:
+                            bad = (f'{desc}: after {who}.{op} the staged '
+                                   f'file {loc.name} of tracker {w2} is '
+                                   'gone or changed')
+                if bad:
+                    break
+            if bad is None:
+                left = sorted(x.name for x in scr.iterdir())
+                if left:
+                    bad = f'{desc}: scratch not empty at the end: {left}'
+                for who in 'AB':
+                    e = env[who]
+                    if e['in'].read_text() != f'input of {who}':
+                        bad = f'{desc}: input of {who} altered'
+                    if not e['out'].is_file() or \
+                            e['out'].read_text() != f'output of {who}':
+                        bad = f'{desc}: output of {who} missing or wrong'
+            for who in 'AB':         # never leave a live tracker behind
+                ft = env[who]['ft']
+                if ft is not None:
+                    ft._to_write_out = []
+                    ft.tmp_dir = None
+            if bad:
+                violations.append({'key': 'trackers-interfere', 'msg': bad})
+            outcomes.add('interfere' if bad else 'clean')
+            traces += 1
+            keys.append(desc)
+            shutil.rmtree(base, ignore_errors=True)
+    return {'violations': violations[:40], 'keys': keys,
+            'outcomes': sorted(outcomes), 'evaluations': traces,
+            'states': 0, 'transitions': transitions, 'traces': traces,
+            'sample': {'kind': 'two FileTracker life cycles, all '
+                               'interleavings', 'schedules': traces}}
 
 
 def post_check(tot):
